@@ -147,7 +147,10 @@ func init() {
 				// (20 histories x 64 configurations with exhaustive index subsets took hours on this VM)
 				hist, ops, variants = 6, 100, "exhaustive"
 			}
-			for _, c := range limitServed(configsFor(tier, seed+2, 14, 42), 2, seed) {
+			for i, c := range limitServed(configsFor(tier, seed+2, 14, 42), 2, seed) {
+				if i%2 == 1 {
+					c.FlushInterval = 60 // as in conf/global.yaml: the periodic flush is rate limited, a forced one (rotation, shutdown) is not
+				}
 				jobs = append(jobs, Job{Variant: "plain", Mode: "db.c02", Args: js(map[string]interface{}{"Cfg": c, "Histories": hist, "NOps": ops, "MaxVal": 20000, "BigPct": 20, "MaintPct": 22, "Restart": true, "Variants": variants, "FullCheckEvery": 0})})
 			}
 			if tier == "thorough" {
@@ -161,7 +164,7 @@ func init() {
 				sched, nsched, nrace = 150, 12, 4
 			}
 			for i := 0; i < nsched; i++ {
-				jobs = append(jobs, Job{Variant: "plain", Mode: "db.c02sched", Args: js(map[string]interface{}{"Cases": sched, "Cfg": StoreCfg{NumBucket: 1, TreeHeight: 3, BodyMax: 1 << 20, IndexInterval: 512, CheckVHash: i%2 == 1}})})
+				jobs = append(jobs, Job{Variant: "plain", Mode: "db.c02sched", Args: js(map[string]interface{}{"Cases": sched, "Cfg": StoreCfg{NumBucket: 1, TreeHeight: 3, BodyMax: 1 << 20, IndexInterval: 512, CheckVHash: i%2 == 1, FlushInterval: []int{0, 60, 60}[i%3]}})})
 			}
 			for i := 0; i < nrace; i++ {
 				jobs = append(jobs, Job{Variant: "race", Mode: "db.c02sched", Args: js(map[string]interface{}{"Cases": sched / 2, "Cfg": StoreCfg{NumBucket: 1, TreeHeight: 3, BodyMax: 1 << 20, IndexInterval: 512}})})
